@@ -4,6 +4,7 @@ import Pms.Props.C07Rot
 import Pms.Props.C07Pair
 import Pms.Props.C07Dyn
 import Pms.Props.C07Ql
+import Pms.Props.C07Mod
 
 #print axioms Pms.Sym.C07_translation_disp
 #print axioms Pms.Sym.C07_translation_gr
@@ -48,3 +49,4 @@ import Pms.Props.C07Ql
 #print axioms Pms.Sym.C07_relabel_psi2d
 #print axioms Pms.Sym.C07_rot_ql
 #print axioms Pms.Sym.C07_scale_ql
+#print axioms Pms.ModShape.C07_module_shape
